@@ -1,7 +1,7 @@
 #!/usr/bin/env python3
 """regex2coq: translate the two `(?x)` regular expressions of sophia_iri into Coq terms.
 
-    python3 regex2coq.py <repo_root> <out_dir>        writes <out_dir>/RegexAtoms.v and <out_dir>/RegexSrc.v
+    python3 regex2coq.py <repo_root> <out_dir>        writes <out_dir>/RegexAtoms.v, RegexSrc.v, IriWiring.v
     python3 regex2coq.py --word "f 3⋅f 9" [<repo_root>]   atoms of a `ka` counter-example -> string
 
 The translator reads IRI_REGEX_SRC and IRELATIVE_REF_REGEX_SRC from <repo_root>/iri/src/_regex.rs
@@ -528,8 +528,30 @@ def extract_sources(repo_root):
     return out, path
 
 
+def resolve_wiring(repo_root):
+    """how BaseIri::resolve treats a typed (already validated) reference in iri/src/resolve.rs:
+    True  = oxiri's checked `resolve`, whose Result is unwrapped by Resolvable::output_abs (current code);
+    False = `resolve_unchecked` selected by Resolvable::KNOWN_VALID (build/proposed/C09-resolve.diff)."""
+    path = os.path.join(repo_root, "iri/src/resolve.rs")
+    text = open(path, encoding="utf8").read()
+    m = re.search(r"pub fn resolve<R: Resolvable<String>>\(&self, iri: R\) -> R::OutputAbs \{(.*?)\n    \}", text, re.S)
+    if not m:
+        raise ValueError("BaseIri::resolve not found in %s" % path)
+    body = " ".join(m.group(1).split())
+    if body == "R::output_abs(self.0.resolve(iri.borrow()).map(Oxiri::into_inner))":
+        checked = True
+    elif "if R::KNOWN_VALID" in body and "resolve_unchecked(iri.borrow())" in body and re.search(r"U: IsIriRef> Resolvable<T> for U \{[^}]*const KNOWN_VALID: bool = true;", text, re.S):
+        checked = False
+    else:
+        raise ValueError("BaseIri::resolve has an unexpected body in %s: %s" % (path, body[:200]))
+    if not re.search(r"fn output_abs\(res: Result<T, IriParseError>\) -> Self::OutputAbs \{\s*Iri::new_unchecked\(res\.unwrap\(\)\)\s*\}", text):
+        raise ValueError("Resolvable::output_abs of typed references no longer unwraps (%s)" % path)
+    return checked
+
+
 def translate(repo_root):
     srcs, path = extract_sources(repo_root)
+    checked = resolve_wiring(repo_root)
     table = atom_table()
     em = Emitter(table)
     asts = {}
@@ -549,7 +571,7 @@ def translate(repo_root):
     atoms_text = ATOMS_HEADER % dict(atomdoc=atomdoc, natoms=len(ATOMS),
                                      table=";\n   ".join("(%d, %d, %d)" % t for t in table),
                                      reprs="; ".join(str(ord(rep)) for _a, _n, rep, _r in ATOMS))
-    text = HEADER % dict(src=path, sha=sha)
+    text = HEADER % dict(src="<repo>/iri/src/_regex.rs", sha=sha)
     text += "\n(* the distinct character classes of the two sources *)\n" + "\n".join(cls_defs) + "\n"
     text += "Definition all_classes : list cclass := [%s].\n" % "; ".join("k%d" % k for k in range(len(em.order)))
     text += "\n(* (c) the regexes, leaves = classes of the source *)\n"
@@ -558,10 +580,16 @@ def translate(repo_root):
     text += "\n(* (a) the same over atoms *)\n" + "\n".join(abs_defs) + "\n"
     for coqname, _, abst in bodies:
         text += "Definition %s_atoms : rex N :=\n  %s.\n" % (coqname, abst)
-    info = {"regex_source_sha256": sha[:16], "regex_classes": len(em.order), "regex_atoms": len(ATOMS),
+    wiring_text = ("(* GENERATED by lib/regex2coq.py from %s -- do not edit. *)\n"
+                   "(* Does BaseIri::resolve run oxiri's CHECKED resolve on a typed (already validated) reference and\n"
+                   "   unwrap its Result (true: the code before build/proposed/C09-resolve.diff), or resolve_unchecked\n"
+                   "   selected by Resolvable::KNOWN_VALID (false)? *)\n"
+                   "Definition typed_resolve_is_checked : bool := %s.\n"
+                   % ("<repo>/iri/src/resolve.rs", "true" if checked else "false"))
+    info = {"typed_resolve_is_checked": checked, "regex_source_sha256": sha[:16], "regex_classes": len(em.order), "regex_atoms": len(ATOMS),
             "RegexSrc.v.sha256": hashlib.sha256(text.encode()).hexdigest()[:16],
             "RegexAtoms.v.sha256": hashlib.sha256(atoms_text.encode()).hexdigest()[:16]}
-    return (atoms_text, text), info, asts
+    return (atoms_text, text, wiring_text), info, asts
 
 
 def _write_if_changed(path, text):
@@ -580,8 +608,9 @@ def gen_regex(root, repo_root=None, out_dir=None):
     """translator entry point for ./check: (ok, info); writes <root>/coq/gen/RegexSrc.v"""
     info = {}
     try:
-        (atoms_text, text), info, _ = translate(repo_root or REPO)
+        (atoms_text, text, wiring_text), info, _ = translate(repo_root or REPO)
         out = out_dir or os.path.join(root, "coq/gen")
+        _write_if_changed(os.path.join(out, "IriWiring.v"), wiring_text)
         _write_if_changed(os.path.join(out, "RegexAtoms.v"), atoms_text)
         _write_if_changed(os.path.join(out, "RegexSrc.v"), text)
         return True, info
@@ -647,7 +676,7 @@ def main(argv):
     if len(argv) == 4 and argv[0] == "--frozen":
         # python3 regex2coq.py --frozen <repo_root> <out_file.v> <ModuleName>: a frozen copy of the
         # translation of some revision, wrapped in a module (used for the pre-fix regexes, C09/PreFix.v)
-        (_atoms, text), info, _ = translate(argv[1])
+        (_atoms, text, _w), info, _ = translate(argv[1])
         head, body = text.split("Open Scope N_scope.\n", 1)
         head = head.replace("GENERATED by lib/regex2coq.py from", "FROZEN COPY generated once by lib/regex2coq.py --frozen from")
         with open(argv[2], "w", encoding="utf8") as f:
